@@ -46,6 +46,10 @@ extern int mpt_cdouble(double *val, const char *src, const double range[2])
 	if (errno == ERANGE && (tmp == HUGE_VAL || tmp == -HUGE_VAL)) {
 		return MPT_ERROR(BadValue);
 	}
+	/* non-zero number below value range (result is zero) */
+	if (errno == ERANGE && tmp == 0) {
+		return MPT_ERROR(BadValue);
+	}
 	if (range && (range[0] > tmp || tmp > range[1])) {
 		return MPT_ERROR(BadValue);
 	}
